@@ -8,6 +8,7 @@ UNITS = {
     "C02": [
         {"name": "C02_FN", "test": "TestC02_FN", "quick": 20000, "thorough": 400000, "shards": 8},
         {"name": "C02_INP", "test": "TestC02_INP", "quick": 1500, "thorough": 20000, "shards": 6},
+        {"name": "C02_IDLE", "test": "TestC02_IDLE", "quick": 4, "thorough": 48, "shards": 4},
         {"name": "C02_BIN", "test": "TestC02_BIN", "quick": 200, "thorough": 3000, "shards": 2, "bin": True},
         {"name": "C02_FUZZ", "test": "FuzzPAACookie", "quick": 0, "thorough": 0, "shards": 1, "fuzz": True, "fuzztime_thorough": "120s", "exclusive": True},
     ],
